@@ -77,6 +77,17 @@ func c06Sources() []srcHello {
 				return u.ApplyPreset(sp)
 			})
 		}
+		// a TLS <= 1.2 era hello that still offers DEFLATE: compression_methods {1, 0}
+		// (spliced into the wire form: the source must not depend on the library honouring the field)
+		if stream, _, _, _ := firstFlight(peer.ClientConfig("example.com"), tls.HelloCustom, func(u *tls.UConn) error { return u.ApplyPreset(handshakeSpec("tls12-only")) }); true {
+			if msg, _, err := wire.FirstFlightHello(stream); err == nil {
+				if h, err := wire.ParseClientHello(msg); err == nil {
+					h2 := *h
+					h2.Compression = []byte{1, 0}
+					c06Src = append(c06Src, srcHello{"compression-methods-1-0", rebuildHello(&h2, nil), "example.com"})
+				}
+			}
+		}
 		// hellos carrying quic_transport_parameters (a type the library knows but cannot decode:
 		// representable only with blunt mimicry, which must then keep the body)
 		for i, mk := range []func() tls.TLSExtension{
